@@ -441,3 +441,80 @@ pub fn seq_witness() {
     w.step(0);
     assert!(false, "VACUITY_WITNESS");
 }
+
+// ================================================================================== from_owner with other owner types (C03)
+macro_rules! owner_case {
+    ($name:ident, $mk:expr, $len:expr) => {
+        #[kani::proof]
+        #[kani::unwind(12)]
+        #[kani::stub(core::slice::index::slice_index_fail, stub_slice_index_fail)]
+        pub fn $name() {
+            unsafe {
+                OWNER_AS_REF_CALLS = 0;
+                OWNER_DROPS = 0;
+            }
+            let a: [u8; 4] = kani::any();
+            let b = Bytes::from_owner($mk(&a));
+            unsafe { assert!(OWNER_AS_REF_CALLS == 1 && OWNER_DROPS == 0) };
+            assert!(b.len() == $len);
+            let x = any_len(4);
+            let y = any_len(4);
+            kani::assume(x <= y && y <= $len);
+            let s = b.slice(x..y);
+            let c = b.clone();
+            assert!(!b.is_unique());
+            // the owner lives as long as any NON-EMPTY view (empty slices are detached)
+            let how: u8 = kani::any();
+            match how % 3 {
+                0 => {
+                    drop(b);
+                    drop(c);
+                    unsafe { assert!(OWNER_DROPS == if y > x { 0 } else { 1 }) };
+                    if y > x {
+                        let i = any_below(y - x);
+                        assert!(s[i] == a[x + i]);
+                    }
+                    drop(s);
+                }
+                1 => {
+                    drop(s);
+                    let v: Vec<u8> = c.into();
+                    unsafe { assert!(OWNER_DROPS == 0) };
+                    agree(&v, &M::of(&a, $len));
+                    drop(b);
+                }
+                _ => {
+                    drop(c);
+                    drop(s);
+                    unsafe { assert!(OWNER_DROPS == 0) };
+                    let m: BytesMut = b.into();
+                    agree(&m, &M::of(&a, $len));
+                }
+            }
+            unsafe { assert!(OWNER_DROPS == 1 && OWNER_AS_REF_CALLS == 1) };
+            end_reached!();
+        }
+    };
+}
+fn mk_vec_owner(a: &[u8; 4]) -> VecOwner {
+    VecOwner(vec_exact(a))
+}
+pub struct ZstOwner;
+impl AsRef<[u8]> for ZstOwner {
+    fn as_ref(&self) -> &[u8] {
+        unsafe { OWNER_AS_REF_CALLS += 1 };
+        &[]
+    }
+}
+impl Drop for ZstOwner {
+    fn drop(&mut self) {
+        unsafe { OWNER_DROPS += 1 };
+    }
+}
+fn mk_zst_owner(_a: &[u8; 4]) -> ZstOwner {
+    ZstOwner
+}
+// @h props=C03,C01,C02 tier=quick flags=leak group=seq note=from_owner(heap-owning_Vec_owner):views,clone,conversions,drop_orders
+owner_case!(owner_vec, mk_vec_owner, 4);
+// @h props=C03,C02 tier=quick flags=leak group=seq note=from_owner(zero-sized_owner_with_empty_slice)
+owner_case!(owner_zst, mk_zst_owner, 0);
